@@ -25,6 +25,24 @@ CHECKS = {
          'decides: listing is read-only, source by selection, oldest first with cap keeping the last N, counts sum to the record size, matcher choice. NOT decided: matches() result.'),
  'C12': ('path enumeration of parse_and_join (with modelled parse failure), join, MatcherList.matches; typestate of stored matchers',
          'decides: failed parse keeps the old matcher and reports, each command updates its own matcher, join replaces on */! and extends field-wise otherwise, list = some alternative and no exclusion. NOT decided: meaning of individual alternatives (C05).'),
+ 'C07': ('XML corpus cross-checks, scenario tables (version contest, enum decoding), identity chains (positional lookup, field mapping)',
+         'decides: the 17 hand-applied enum tags resolve in every winning description, reader vocabulary occurs in the corpus, highest version wins, argument i is the i-th declared, overrides call super, enum/bitfield decode table and fallbacks, unknown interface stays undecorated. NOT decided: per-entry facts as an enumeration; parse_enum_value arithmetic. Trusted: shipped XML read as data.'),
+ 'C08': ('path enumeration of parse_all with modelled decode failures; exception flow into the pass-through handler over the RTA call graph',
+         'decides: one readline and one outcome per iteration, pass-through text is the line and only for non-messages (every other raise site reaching the handler is reported), loop exits only on EOF/interrupt, --supress read only by the pass-through sink, synchronous output chain. NOT decided: OS buffering; behaviour after the internal-error latch. One recorded finding (D4).'),
+ 'C09': ('structural analysis of extract_message against frozen libwayland tables; sibling comparison with log mode\'s kind table',
+         'decides: the argument cursor has only its init and += 1 as definitions, code table = branch chain = {iufsonah}, code->constructor table equals log mode, struct-field roles, direction per breakpoint. NOT decided: what GDB evaluates; array element width. Nothing of GDB mode is executed.'),
+ 'C13': ('call structure of main() over all Mode members; provenance of argv/env/stderr/exit status; read discipline of the parser',
+         'decides: the three log modes feed one ConnectionManager/Controller/Output through into_sink once, parser reads by readline() only, child started with verbatim argv, copied env + WAYLAND_DEBUG=1, stdout untouched, exit status passed through. NOT decided: chunking/timing as observable equality (delegated to TextIOWrapper); join timeout.'),
+ 'C14': ('finite-domain evaluation of character classes; shared constants of encoder/decoder; identity chains',
+         'decides: label letters are within what the matcher lexer accepts and disjoint from digits, both sides use the unmodified (id, generation) pair and the same radix/alphabet, connection matcher sees the displayed name. NOT decided: bijectivity of the base-26 arithmetic (needs induction or execution); bare-object selection semantics (C05).'),
+ 'C15': ('key-presence analysis over all paths; scenario evaluation; exception escape set of the destroy breakpoint',
+         'decides: no dict subscript/del on the connection tables without the key shown present, open iff address unknown, close forgets the address and is forwarded, thread mismatch only warns, no KeyError/RuntimeError escapes stop(). NOT decided: GDB/libwayland behaviour.'),
+ 'C17': ('enumeration of ESC literals and switch reads; symbolic-string paths of color(); abstract evaluation of colour codes + automata inclusion in no_color; taint into layout; sanitiser ordering',
+         'decides: only color() emits escapes, off => text itself, every code is [0-9;]* and removable by no_color, no len/ljust/slicing of coloured text, pasted text is stripped of colour before tokenising. NOT decided: escape sequences arriving in the input.'),
+ 'C18': ('exception-flow closures over the RTA call graph with a conditional triage table; decoder configuration of the input streams; abstract-method completeness',
+         'decides (for the modelled exception kinds: raise, assert, int()/float(), dict subscripts): parser signals only RuntimeError and every caller reports it, matcher evaluation/printing total, parse loop cannot be left by an exception, command dispatcher escape set within the triage table, lenient decoding in all three modes. NOT decided: TypeError/IndexError/AttributeError, recursion/memory, OS errors, prompt EOF.'),
+ 'C19': ('path enumeration of _split_command/_select_mode; identity chains into argparse/Arguments/subprocess/GDB; quoting-function check',
+         'decides: split shapes (i, i+1, cluster minus last letter), argparse sees only our half, forwarded words unmodified and in order, matcher errors re-raised and reported with non-zero exit, exactly one mode else usage, our words re-quoted through a total quoting function. NOT decided: GDB\'s own command-line parsing.'),
  'C16': ('provenance of time values, scenario evaluation of the separator guard',
          'decides: ms->s, timestamp relative to first message (shift invariance), separator iff gap > 1.0 s between shown messages, marker handling, what is printed. NOT decided: rounding of the format.'),
 }
